@@ -67,6 +67,9 @@ pub fn explorer_plan(prop: &str, thorough: bool) -> Option<Plan> {
         }
         "C03" => {
             p.checks = Checks { lattice: true, accuracy: true, ..Default::default() };
+            // mostly ordinary data (distance accuracy is checked), sometimes infinities / NaN / huge values:
+            // the well-formedness clauses (order, count, filter, ids) hold for those too
+            p.values = vec![Values::Grid, Values::Grid, Values::Uniform, Values::Uniform, Values::Uniform, Values::Degenerate(7), Values::Degenerate(5)];
             p.queries_per_build = 2;
             p.rounds = (1, 3);
             p.max_items = 150;
@@ -99,6 +102,7 @@ pub fn explorer_plan(prop: &str, thorough: bool) -> Option<Plan> {
         "C05" => {
             p.checks = Checks { store: true, ..Default::default() };
             p.values = vec![Values::AllBits, Values::AllBits, Values::Grid];
+            p.p_badlen = 0.03;
             // a few large dimensions too: leaves beyond one LMDB page (overflow pages), several quantised words
             p.dims.extend_from_slice(&[257, 1030]);
             p.p_variant_overwrite = 0.12;
@@ -124,6 +128,7 @@ pub fn explorer_plan(prop: &str, thorough: bool) -> Option<Plan> {
             p.ops_per_round = (0, 12);
             p.rounds = (1, 6);
             p.p_midcommit = 0.15;
+            p.p_cancelled_first_build = 0.25;
             p.p_badlen = 0.08;
             p.p_clear = 0.04;
             p.p_abort = 0.15;
@@ -133,13 +138,15 @@ pub fn explorer_plan(prop: &str, thorough: bool) -> Option<Plan> {
             Plan {
                 profile: p,
                 cases: (40000, 600000),
-                required: &["open_Ok", "open_NeedBuild", "open_MissingMetadata", "open_wrong_metric", "del_absent", "badlen_rejected", "aborts"],
+                required: &["open_Ok", "open_NeedBuild", "open_MissingMetadata", "open_wrong_metric", "del_absent", "badlen_rejected", "aborts", "first_builds_cancelled"],
                 custom_gen: None,
                 rule: "case = short explorer history over 1-3 indexes; after every single operation (in-txn) and after every commit/abort (fresh read txn) Reader::open (right and wrong metric) and need_build are compared with the model's staleness; non-trivial+distinct = distinct (operation kind, changed/unchanged effect, built?, dirty?, metric, log2 item count) situations after which open/need_build were evaluated, plus distinct forest shapes with splits",
             }
         }
         "C07" => {
             p.checks = Checks { isolation: true, ..Default::default() };
+            // hostile values too: code paths guarded by "is the norm finite?" style tests belong to the quantifier
+            p.values = vec![Values::Grid, Values::Uniform, Values::AllBits, Values::Degenerate(5), Values::Degenerate(7), Values::Degenerate(2)];
             p.n_indexes = (2, 4);
             p.max_items = 60;
             p.ops_per_round = (1, 30);
